@@ -123,6 +123,11 @@ def tasks_for(run, module, prop, quick_depth=2, thorough_depth=3, lf_quick=0, lf
         for rec in G.validated_item_records() + G.failing_invalidation_records() + G.empty_state_records() + G.dnc_class_records():
             tasks.append({"rec": rec, "depth": 2, "module": module, "prop": prop, "tier": run.tier,
                           "line_fault_depth": 0, "inits": 2, "max_states": 800})
+    if prop in ("C01", "C02"):
+        # the __post_copy__ hook completes the COPY (it writes to it): it must never see - or touch - the original
+        for rec in (G.single("nums", "mut", post_copy="assigns"), G.composite("CompPostCopyAssigns", [("int", "lit"), ("leaf", "mut")], post_copy="assigns")):
+            tasks.append({"rec": rec, "depth": 2, "module": module, "prop": prop, "tier": run.tier,
+                          "line_fault_depth": 0, "inits": 2, "max_states": 800})
     if prop in ("C01",):
         for rec in G.dnc_parent_records():
             tasks.append({"rec": rec, "depth": 2, "module": module, "prop": prop, "tier": run.tier,
@@ -149,7 +154,7 @@ def tasks_for(run, module, prop, quick_depth=2, thorough_depth=3, lf_quick=0, lf
                           "line_fault_depth": 0, "inits": 2, "max_states": 800})
     if prop in ("C03",):
         # attributes served by a descriptor (overridable spec_property, property with a setter) are type-checked like any other
-        for rec in G.property_served_records()[:3] + G.setter_served_records():
+        for rec in G.property_served_records()[:4] + G.setter_served_records():
             tasks.append({"rec": rec, "depth": 2, "module": module, "prop": prop, "tier": run.tier,
                           "line_fault_depth": 0, "inits": 2, "max_states": 800})
     if prop in ("C03",):
